@@ -168,6 +168,15 @@ def check_case(run, nodes, pattern, g, scratch):
         if m.ok or m.fail_kind not in FLOW:
             alt = rm.run_pipeline(nodes, data, ctx, absent_delete="noop") if m.dontcare else None
             run.count("runs_failed_nonflow_or_model_disagrees")
+            if m.ok and not m.dontcare and "KeyError" in (r.exc_mro or []) and not any(
+                    (mm.comp is not None and mm.comp.fault) for mm in models):
+                # the documented semantics let this accepted configuration run to the end with these keys, yet the run
+                # stopped on a KeyError (the class every "key missing / parameter unresolvable" failure has): a required
+                # key that inspection did not report
+                run.violation("accepted_config_fails_missing_key_not_reported",
+                              f"inspection+validation accepted the configuration and the context supplies every reported required key ({label}); "
+                              f"the documented semantics succeed, but the run raised {r.exc_name}: {str(r.exc)[:160]}",
+                              dict(witness, ctx=ctx, ctx_label=label))
             continue
         # the documented semantics prescribe a flow-class failure here and the run did fail
         idx = account.failing_index_by_prefix(nodes, data, ctx, scratch=scratch) if m.fail_kind != "construction" else m.fail_index
